@@ -18,10 +18,11 @@ N = {'quick': 30000, 'thorough': 2000000}
 RULE = ('seeded worlds (2-8 segments, 1-4 channels, some with identical shapes so the offset index is '
         'de-duplicated, _array_equal chunk knob in {1,2,3,100}); per world a seeded schedule of <=60 actions over '
         '<=8 live generators (TdmsFile.data_chunks, channel.data_chunks, iter(channel)) and direct index / slice '
-        '/ read_data ops on one lazily opened handle. distinct = distinct abstract traces [(action, generator '
+        '/ read_data ops on one lazily opened handle; in 20% of worlds one transient EIO is injected at a seeded read event '
+        'of that handle (the read that meets it may fail, every later read must still be right). distinct = distinct abstract traces [(action, generator '
         'kind, op kind)...] x world shape; non-trivial = at least one generator was advanced with another '
         'action interleaved between two of its yields')
-EXPECTED_PROBES = ['scaled-channel', 'read-between-file-chunks', 'two-generators-same-channel', 'abandoned-then-new',
+EXPECTED_PROBES = ['eio:op-raised', 'eio:generator-hit', 'scaled-channel', 'read-between-file-chunks', 'two-generators-same-channel', 'abandoned-then-new',
                    'index-cache-hit-after-other-read', 'generator-drained-at-end']
 MAX_LIVE = 8
 
@@ -99,7 +100,9 @@ def generate(rng, tier):
         w = build(spec)
     return {'spec': spec, 'raw_ts': rng.random() < 0.4, 'backend': rng.choice(['simstream', 'simstream', 'simpath', 'bytesio', 'realpath', 'realfile']),
             'dedup_chunk': rng.choice([1, 2, 3, 100]), 'actions': gen_actions(rng, w),
-            'short_seed': rng.getrandbits(32) if rng.random() < 0.2 else None, 'debug_log': rng.random() < 0.05}
+            'short_seed': rng.getrandbits(32) if rng.random() < 0.2 else None, 'debug_log': rng.random() < 0.05,
+            # a transient I/O error on the open handle: the read that meets it may fail, later reads must not be affected
+            'eio_at': rng.randint(5, 200) if rng.random() < 0.2 else None}
 
 
 def make_gen(tf, w, a):
@@ -151,13 +154,17 @@ def execute(case):
     res.sig = [_sig(spec), trace]
     with store(short_seed=case['short_seed'], record=False) as st, lib.knobs(dedup_chunk=case['dedup_chunk'], debug_log=case.get('debug_log', False)):
         st.put('w.tdms', w.data)
+        eio = case.get('eio_at')
         try:
-            tf = lib.TdmsFile.open(st.source(case['backend'], 'w.tdms'), raw_timestamps=raw_ts)
+            src = st.source(case['backend'] if eio is None else 'simstream', 'w.tdms')
+            tf = lib.TdmsFile.open(src, raw_timestamps=raw_ts)
         except Exception as exc:
             res.skipped_ops += len(acts)
             res.ev('open-raises', type(exc).__name__)
             return res
-        res.backend = case['backend']
+        if eio is not None:
+            src.fail_local = {src.local_reads + eio}
+        res.backend = case['backend'] if eio is None else 'simstream'
         fulls = {p: _lazy.model_full(c, raw_ts) for p, c in w.chans.items()}
         from .. import scalemodel
         scaled = [p for p in w.chans if w.chans[p].type not in (None, 'daqmx') and scalemodel.channel_scales(w, p) is not None]
@@ -210,7 +217,12 @@ def execute(case):
                         res.nontrivial = True
                         if g[1]['kind'] == 'file':
                             res.probe('read-between-file-chunks')
+                    fired0 = st.fs.faults_fired.get('eio', 0)
                     v = advance(g, w, step, res)
+                    if st.fs.faults_fired.get('eio', 0) > fired0:
+                        res.probe('eio:generator-hit')
+                        g[2] = None       # a generator that met the injected error is finished; nothing more is asked of it
+                        v = None
                     if v:
                         res.violations.append(v)
                     last_advanced = a['id']
@@ -243,7 +255,11 @@ def execute(case):
                     else:
                         for k_ in list(other_read_since):
                             other_read_since[k_] = True
+                    fired0 = st.fs.faults_fired.get('eio', 0)
                     v, g_, exc = _lazy.check_op(tf, w, op, full, 'C05.op', 'lazy', keeper=keeper)
+                    if exc == 'OSError' and st.fs.faults_fired.get('eio', 0) > fired0:
+                        res.probe('eio:op-raised')
+                        v = None          # the read that met the injected error may fail; it must not poison later reads
                     res.compared += 1
                     if v is not None:
                         v.sig['step'] = step
@@ -259,7 +275,12 @@ def execute(case):
                 remaining = max(0, len(g[3]) - g[2])
                 for _ in range(remaining + 1):
                     res.steps += 1
+                    fired0 = st.fs.faults_fired.get('eio', 0)
                     v = advance(g, w, 'drain', res)
+                    if st.fs.faults_fired.get('eio', 0) > fired0:
+                        res.probe('eio:generator-hit')
+                        g[2] = None
+                        break
                     if v:
                         res.violations.append(v)
                         break
@@ -330,6 +351,10 @@ def shrink_candidates(case):
     for acts in list_candidates(case['actions']):
         c = dict(case)
         c['actions'] = acts
+        yield c
+    if case.get('eio_at') is not None:
+        c = dict(case)
+        c['eio_at'] = None
         yield c
     for k, v in (('short_seed', None), ('backend', 'simstream'), ('dedup_chunk', 100), ('raw_ts', False)):
         if case[k] != v:
